@@ -138,6 +138,48 @@ theorem delays128_pattern (row col : Int) (hr : 0 ≤ row ∧ row < 192) (hc : 0
   have : 0 ≤ 228 * row + col ∧ row < 192 ∧ col < 128 ∧ 14361 + 228 * row + col < 70908 := by omega
   simp [this]
 
+theorem cfg48_vals : (cfgFor false).t0 = 14312 ∧ (cfgFor false).t1 = 57245 ∧ (cfgFor false).frame_duration = 69888 ∧ (cfgFor false).int_active = 32 := by decide
+theorem cfg128_vals : (cfgFor true).t0 = 14338 ∧ (cfgFor true).t1 = 58035 ∧ (cfgFor true).frame_duration = 70908 ∧ (cfgFor true).int_active = 36 := by decide
+
+/-- The guard `t0 < T mod frame < t1` is sound (48K): an instruction that starts at or after `t1`
+meets no delay at any later T-state of the frame, and one that starts at or before `t0` meets none
+during its first 23 T-states. -/
+theorem window_sound_48k_after (t : Int) (h : (cfgFor false).t1 ≤ t) : delays48 t = 0 := by
+  rw [cfg48_vals.2.1] at h
+  unfold delays48; simp only
+  split
+  · rename_i hh
+    have : (t - 14335) % 8 = 6 ∨ (t - 14335) % 8 = 7 := by omega
+    rcases this with h8 | h8 <;> simp [h8, pattern]
+  · rfl
+
+theorem window_sound_48k_before (t : Int) (h : t ≤ (cfgFor false).t0 + 22) : delays48 t = 0 := by
+  rw [cfg48_vals.1] at h
+  unfold delays48; simp only
+  split
+  · exfalso; omega
+  · rfl
+
+theorem window_sound_128k_after (t : Int) (h : (cfgFor true).t1 ≤ t) : delays128 t = 0 := by
+  rw [cfg128_vals.2.1] at h
+  unfold delays128; simp only
+  split
+  · rename_i hh
+    have : ((t - 14361) % 228) % 8 = 6 ∨ ((t - 14361) % 228) % 8 = 7 := by omega
+    rcases this with h8 | h8 <;> simp [h8, pattern]
+  · rfl
+
+theorem window_sound_128k_before (t : Int) (h : t ≤ (cfgFor true).t0 + 22) : delays128 t = 0 := by
+  rw [cfg128_vals.1] at h
+  unfold delays128; simp only
+  split
+  · exfalso; omega
+  · rfl
+
+/-- the window is not wider than necessary: the T-state just before `t1` is still contended -/
+theorem window_tight_48k : delays48 ((cfgFor false).t1 - 1) = 1 ∧ delays48 ((cfgFor false).t0 + 23) = 6 := by decide
+theorem window_tight_128k : delays128 ((cfgFor true).t1 - 1) = 1 ∧ delays128 ((cfgFor true).t0 + 23) = 6 := by decide
+
 /-- every I/O contention pattern accounts for exactly the 4 T-states of the I/O cycle -/
 theorem io_contention_sum {μ} [MemLike μ] (cfg : Cfg) (m : μ) (port : Int) :
     ((io_contention cfg m port).map Prod.snd).sum = 4 := by
